@@ -55,6 +55,7 @@ struct ReadSpec
 	int64_t sizes[3] = {0, 0, 0};
 	int nbuf = 1;
 	bool wait_style = false;
+	int fit = 0; // 1: the first buffer is exactly as large as what is queued; 2: the first two buffers together are
 };
 
 struct Tcp;
@@ -353,8 +354,24 @@ struct Tcp
 		}
 	}
 
-	std::vector<asio::mutable_buffer> make_rbufs(Side& s, ReadSpec const& r)
+	std::vector<asio::mutable_buffer> make_rbufs(Side& s, ReadSpec const& r0)
 	{
+		ReadSpec r = r0;
+		if (r.fit)
+		{
+			// a reader that sizes its buffers after available(): what is queued ends exactly on the boundary
+			// of a buffer that is not the last one
+			error_code aec;
+			int64_t const av = int64_t(s.sock->available(aec));
+			if (!aec && av > 0 && av < 3000000)
+			{
+				if (r.fit == 1 || av < 2) { r.sizes[0] = av; r.sizes[1] = std::max<int64_t>(r.sizes[1], 7); r.nbuf = std::max(r.nbuf, 2); }
+				else { r.sizes[0] = av / 2; r.sizes[1] = av - av / 2; r.sizes[2] = std::max<int64_t>(r.sizes[2], 7); r.nbuf = 3; }
+				ctx.hit("read_buffers_fitted_to_available");
+			}
+			r.fit = 0;
+			s.cur_r = r; // the verification walks the buffers actually used
+		}
 		std::vector<asio::mutable_buffer> bufs;
 		for (int i = 0; i < r.nbuf; ++i)
 		{
@@ -494,7 +511,7 @@ struct Tcp
 			s.sock->async_connect(accept_ep[s.conn], [this, sp, g](error_code const& cec) {
 				++ctx.handlers;
 				ctx.tr.rec("connected", {sp->conn, cec.value()}, {now_ns()});
-				sp->writer_busy = false;
+				if (!sp->write_outstanding) sp->writer_busy = false;
 				connect_done[sp->conn] = true;
 				connect_ec[sp->conn] = cec;
 				if (g != sp->gen) return;
@@ -511,6 +528,17 @@ struct Tcp
 				error_code lec;
 				tcp::endpoint const le = s.sock->local_endpoint(lec);
 				if (!lec) { connector_ports[s.conn].insert(le.port()); s.port = le.port(); }
+			}
+			// a client that does not wait for the connect handler before it writes: the library parks the write
+			// until the connection is established
+			if (plan.c("early_write", 0) && s.port > 0 && !s.write_outstanding && !s.script.empty() && s.script.front().k == Elem::Write
+				&& s.script.front().phase <= cur_phase && s.script.front().need_rx < 0)
+			{
+				Elem e = s.script.front();
+				s.script.pop_front();
+				e.nonblocking = false;
+				ctx.hit("write_before_connect_handler");
+				do_write(s, e);
 			}
 		};
 		if (delay > 0)
@@ -597,6 +625,7 @@ struct Tcp
 				ReadSpec r;
 				decode_sizes(o.c, o.d >> 1, k_rsizes, k_nr, r.sizes, r.nbuf);
 				r.wait_style = (o.d & 1) != 0;
+				r.fit = int(uint64_t(o.at) % 3);
 				s.rscript.push_back(r);
 			}
 			else if (o.op == "close") { Elem e; e.k = Elem::Close; e.phase = phase; s.script.push_back(e); }
@@ -1105,6 +1134,7 @@ struct TcpEngine : Engine
 				p.cfg[k] = rng.chance(0.3) ? int64_t(rng.range(64, 9000)) : rng.pick(pool);
 		}
 		p.cfg["accept_variant"] = int64_t(rng.below(3));
+		p.cfg["early_write"] = rng.chance(0.15) ? 1 : 0;
 		bool const finite = (c06 && rng.chance(0.7)) || (c05 && rng.chance(0.35));
 		int nconn = 1;
 		if (!finite || !c06) nconn = int(rng.range(1, c20 ? 2 : 3));
@@ -1186,7 +1216,7 @@ struct TcpEngine : Engine
 					pp_first = false;
 					if (rng.chance(0.6)) pp_side = 1 - pp_side;
 				}
-				else { o.op = "r"; o.a = 0; o.b = int64_t(rng.below(2)); o.c = int64_t(rng.below(uint64_t(k_nr))); o.d = (int64_t(rng.below(3)) << 1) | (rng.chance(0.3) ? 1 : 0); }
+				else { o.op = "r"; o.a = 0; o.b = int64_t(rng.below(2)); o.c = int64_t(rng.below(uint64_t(k_nr))); o.d = (int64_t(rng.below(3)) << 1) | (rng.chance(0.3) ? 1 : 0); o.at = rng.chance(0.25) ? int64_t(rng.range(1, 2)) : 0; }
 				p.ops.push_back(o);
 				continue;
 			}
@@ -1208,6 +1238,7 @@ struct TcpEngine : Engine
 				o.op = "r"; o.a = c; o.b = int64_t(rng.below(2));
 				o.c = int64_t(rng.below(uint64_t(k_nr)));
 				o.d = (int64_t(rng.below(3)) << 1) | (rng.chance(0.3) ? 1 : 0);
+				o.at = rng.chance(0.25) ? int64_t(rng.range(1, 2)) : 0;
 			}
 			else if (u < 0.86)
 			{
